@@ -1,5 +1,8 @@
-(* C06 GraphColoring: under mask-respecting play adjacent coloured nodes never share a colour (Inv contains [proper]) *)
-Require Import JV.Base.Prelude JV.Base.JaxIndex JV.Base.Codec JV.Base.TimeStep JV.Model.GraphColoring JV.Proofs.GraphColoring.
+(* C06 GraphColoring: under mask-respecting play adjacent coloured nodes never share a colour (Inv contains [proper]) - on
+   every step, the terminal one included - and a mask-respecting episode from reset that ends delivers a COMPLETE PROPER
+   colouring of the generated graph: every node has a colour in [0, n-1] and no edge joins two nodes of the same colour. *)
+Require Import JV.Base.Prelude JV.Base.JaxIndex JV.Base.Codec JV.Base.TimeStep JV.Model.GraphColoring JV.Proofs.GraphColoring
+  JV.Proofs.GraphColoring_rules JV.Proofs.GraphColoring_episode.
 Theorem C06_GraphColoring_proper_init n adj0 : 0 < n -> graph_wf n adj0 -> proper n adj0 (colors (fst (init n adj0))).
 Proof. intros H G. exact (inv_proper _ _ (init_Inv n adj0 H G)). Qed.
 Theorem C06_GraphColoring_proper_step n s a :
@@ -7,3 +10,28 @@ Theorem C06_GraphColoring_proper_step n s a :
   st (snd (step n s a)) = MID -> proper n (adj (fst (step n s a))) (colors (fst (step n s a))).
 Proof. intros H I A M S. exact (inv_proper _ _ (step_preserves_Inv n s a H I A M S)). Qed.
 Print Assumptions C06_GraphColoring_proper_step.
+(* also on the terminal step: the whole invariant survives every mask-respecting in-spec colour *)
+Theorem C06_GraphColoring_inv_every_legal_step n s a :
+  0 < n -> Inv n s -> 0 <= a < n -> jget false (amask s) a = true -> Inv n (fst (step n s a)).
+Proof. exact (step_preserves_Inv_legal n s a). Qed.
+Print Assumptions C06_GraphColoring_inv_every_legal_step.
+Theorem C06_GraphColoring_completion_is_a_proper_colouring n adj0 acts :
+  0 < n -> graph_wf n adj0 ->
+  let s0 := fst (init n adj0) in
+  inspec n acts -> legal_run n s0 acts -> ended n s0 acts ->
+  let sf := final n s0 acts in
+  adj sf = adj0 /\ (forall j, 0 <= j < n -> 0 <= color_of (colors sf) j < n) /\ proper n adj0 (colors sf).
+Proof.
+  intros Hn G s0 HA Hl He sf.
+  exact (let H := C08_return_from_reset n adj0 acts Hn G HA Hl He in conj (proj1 (proj2 H)) (conj (proj1 (proj2 (proj2 H))) (proj1 (proj2 (proj2 (proj2 H)))))).
+Qed.
+Print Assumptions C06_GraphColoring_completion_is_a_proper_colouring.
+(* the boolean checkers run on implementation states decide the declarative predicates *)
+Theorem C06_GraphColoring_checker n adj colors : proper_b n adj colors = true <-> proper n adj colors.
+Proof. exact (proper_b_spec n adj colors). Qed.
+Example C06_GraphColoring_nonvacuous :
+  let adj0 := gen_adj 4 [[false;false;false;false];[true;false;false;false];[false;true;false;false];[true;false;true;false]] in
+  let s0 := fst (init 4 adj0) in
+  legal_run 4 s0 [0; 1; 0; 1] /\ ended 4 s0 [0; 1; 0; 1] /\ colors (final 4 s0 [0; 1; 0; 1]) = [0; 1; 0; 1]
+  /\ proper_b 4 adj0 [0; 1; 0; 1] = true /\ proper_b 4 adj0 [0; 1; 1; 1] = false.
+Proof. vm_compute. repeat split; try reflexivity; intuition (try discriminate; try lia). Qed.
